@@ -49,6 +49,24 @@ TEXTS = {
                 "translator, harness, model.",
         "technique": "Lean 4 proof over executable model + differential correspondence + metamorphic oracle",
     },
+    "C12": {
+        "text": "Lean theorems on the exact model of the multi-line string re-indenter (line-by-line specification: values unchanged, exact "
+                "indentation, configured terminators, rejection rule, untouched when off/ignored). The model is checked against the "
+                "wrapper stage's before/after token contents on every case and a per-literal value oracle runs on the real formatter "
+                "over a targeted family (3/5/7 quotes, LF/CR/CRLF, tab/space/U+3000/control indentation, short/blank/over-indented lines).",
+        "design_ref": "DESIGN.md section 5 (C12)",
+        "note": "The splitting of a literal into lines (lines_custom) is modelled and differentially checked, its declarative "
+                "characterisation is not yet a theorem. Trusted: Lean kernel, translator, harness, model.",
+        "technique": "Lean 4 proof over executable model + differential correspondence + direct oracle",
+    },
+    "C15": {
+        "text": "Lean theorems on the exact cursor model (checked arithmetic): offset_for_token is the true offset, same-offset-in-same-token, "
+                "past-the-end, cursor state never read by format; the known underflow is a decide-checked witness. Model vs implementation "
+                "compared on all character boundaries of small inputs and random cursor lists on large ones.",
+        "design_ref": "DESIGN.md section 5 (C15)",
+        "note": "Known findings F3, F7, F11, F16. Trusted: Lean kernel, translator, harness, model.",
+        "technique": "Lean 4 proof over executable model + differential correspondence + direct oracle",
+    },
     "C13": {
         "text": "Machine-checked Lean 4 theorems on an exact model of the lexer: losslessness, single last end-of-file token, blank-only "
                 "leading whitespace, non-blank token starts, AVX2 identifier routine = scalar routine for every input, keyword lookup = "
